@@ -1,6 +1,7 @@
 import CuqiVerif.Model.Proto
 import CuqiVerif.Model.C19
 import CuqiVerif.Model.C19_access
+import CuqiVerif.Model.C19_index
 open CuqiVerif CuqiVerif.Proto CuqiVerif.C19
 
 /-! Line protocol of the C19 model.
@@ -117,7 +118,7 @@ def fmtState (s : Samples) : String :=
   s!"{fmtNatList s.shape}~{fmtBool s.isPar}~{fmtBool s.isVec}~{s.geom.tag}~{fmtMat s.cols}"
 
 inductive Op | bt (b t : Int) | fv | vec | par
-  | sub (i : SubIdx) | setVec (v : Bool) | setPar (v : Bool)
+  | sub (i : SubIdx) | setVec (v : Bool) | setPar (v : Bool) | sub2 (i : SubIdx2)
 
 def parseIntList (s : String) : Option (List Int) :=
   if s = "_" then some [] else (s.splitOn ",").mapM (·.toInt?)
@@ -132,6 +133,17 @@ def parseOp (s : String) : Option Op :=
   | ["subl", ks] => do let ks ← parseIntList ks; pure (.sub (.list ks))
   | ["setvec", v] => do let v ← parseBool v; pure (.setVec v)
   | ["setpar", v] => do let v ← parseBool v; pure (.setPar v)
+  | ["sls", a, b, t] => do
+      let f := fun (x : String) => if x = "N" then some (none : Option Int) else (x.toInt?).map some
+      let a ← f a; let b ← f b; let t ← f t
+      pure (.sub2 (.slice a b t))
+  | ["mask", m] => do
+      let bs ← (if m = "_" then some [] else m.toList.mapM (fun c => if c = '1' then some true else if c = '0' then some false else none))
+      pure (.sub2 (.mask bs))
+  | ["bsc", v] => do let v ← parseBool v; pure (.sub2 (.boolScalar v))
+  | ["grid", g] => do
+      let rows ← (g.splitOn "|").mapM parseIntList
+      pure (.sub2 (.grid rows))
   | _ => none
 
 def Op.run (s : Samples) : Op → Except String Samples
@@ -142,6 +154,7 @@ def Op.run (s : Samples) : Op → Except String Samples
   | .sub i => s.subSamples i
   | .setVec v => s.setIsVec v
   | .setPar v => .ok (s.setIsPar v)
+  | .sub2 i => s.subSamples2 i
 
 /-- run the ops in order; report the state after each one, stop at the first exception -/
 def runSeq : Samples → List Op → List String
@@ -235,6 +248,25 @@ def stepAccess : List String → String
       | .error e => "err:" ++ e
       | .ok d => fmtDict d
     | _, _ => "bad-op"
+  | ["plotci", g, sh, ip, iv, cols, p, hasExact, kwIsPar, peIsPar, kwPP, pePP, g2d] =>
+    let ob := fun (x : String) => if x = "n" then some (none : Option Bool) else (parseBool x).map some
+    match parseSamples g sh ip iv cols, parseRat p, parseBool hasExact, parseBool kwIsPar, parseBool peIsPar, ob kwPP, ob pePP, parseBool g2d with
+    | some s, some p, some he, some k1, some k2, some pp1, some pp2, some g2 =>
+      if s.cols.isEmpty then "nan" else
+      match s.plotCi p he k1 k2 pp1 pp2 g2 with
+      | .error e => "err:" ++ e
+      | .ok calls => " | ".intercalate (calls.map (fun c => match c with
+          | .plot v ip => "P " ++ fmtVec v ++ " " ++ (match ip with | none => "n" | some b => fmtBool b)
+          | .envelope lo up ip pp => "E " ++ fmtVec lo ++ " " ++ fmtVec up ++ " " ++ fmtBool ip ++ " " ++ fmtBool pp
+          | .exact ip pp => "X " ++ fmtBool ip ++ " " ++ fmtBool pp))
+    | _, _, _, _, _, _, _, _ => "bad-op"
+  | "jointstat" :: rest =>
+    match parseJoint rest with
+    | some js =>
+      if js.isEmpty then "_" else
+      " | ".intercalate (((jointNs js).zip ((jointStat mean js).zip ((jointStat variance js).zip (jointStat median js)))).map
+        (fun x => x.1.1 ++ ":" ++ toString x.1.2 ++ ":" ++ fmtVec x.2.1.2 ++ ":" ++ fmtVec x.2.2.1.2 ++ ":" ++ fmtVec x.2.2.2.2))
+    | none => "bad-op"
   | "rhatb" :: how :: rest =>
     match parseChains rest with
     | some (s :: chains) =>
